@@ -196,3 +196,25 @@ Theorem run_never_out_of_fuel : forall ns fuel, (length ns < fuel)%nat -> forall
   ~ In OFuel (snd (run fuel s h)).
 Proof. exact run_never_out_of_fuel_lemma. Qed.
 Print Assumptions run_never_out_of_fuel.
+
+(* ---- host initialisation in any order (SkipOpenLibs) ---- *)
+(* OpenPackage makes "package" itself reachable and loses nothing that was registered before it *)
+Theorem open_package_keeps_modules : forall s s' t,
+  open_package s = (s', Ok t) ->
+  is_table t = true /\ loaded s' PKG = t /\
+  (is_table (loaded s PKG) = false -> globals s' PKG = t) /\
+  (forall m, m <> PKG -> loaded s' m = loaded s m) /\
+  (forall fuel, require (S fuel) s' PKG = (s', Ok t)).
+Proof. exact open_package_lemma. Qed.
+Print Assumptions open_package_keeps_modules.
+
+(* a module table in _LOADED (RegisterModule / OpenString / ... , see host_modules_reachable) stays
+   reachable through require AND keeps its global through every later sequence of OpenBase,
+   OpenPackage, OpenXXX, RegisterModule, PreloadModule in any order *)
+Theorem host_modules_reachable_any_order : forall i sb n,
+  is_table (loaded (fst sb) n) = true ->
+  let s2 := fst (fst (irun sb i)) in
+  loaded s2 n = loaded (fst sb) n /\ globals s2 n = globals (fst sb) n /\
+  forall fuel, require (S fuel) s2 n = (s2, Ok (loaded (fst sb) n)).
+Proof. exact host_modules_reachable_any_order_lemma. Qed.
+Print Assumptions host_modules_reachable_any_order.
